@@ -116,10 +116,15 @@ class Ctx:
         for r in results:
             c = by[r.fn]
             if r.twin:
-                if r.verdict != 'counterexample':
+                if r.verdict == 'budget_exhausted':
+                    # the twin ran out of its (short) budget before one path completed: not evidence of vacuity
+                    self.extra.setdefault('twins_inconclusive', []).append(f'{module}.{r.fn}')
+                elif r.verdict != 'counterexample':
                     self.harness_errors.append(
                         f'vacuity twin of {module}.{r.fn} found no path reaching the assertion ({r.verdict}: '
                         f'{r.message[:300]})')
+                else:
+                    self.extra['twins_reached'] = self.extra.get('twins_reached', 0) + 1
                 continue
             self.evaluations += r.paths
             self.distinct += r.confirmed_paths
